@@ -544,10 +544,29 @@ class Real(PackedOps, RandOps):
         return 'ok'
 
     # ---- resolution changes, MOC -------------------------------------------------
+    @staticmethod
+    def f4_sum_unsafe(m, red):
+        """float32 maps are reduced in float32: the result of sum / mean / std then depends on numpy's
+        summation order unless EVERY partial sum is exact.  Sufficient: all valid values are multiples of
+        2^-K and the sum of their magnitudes stays below 2^24 * 2^-K.  Otherwise the exact model cannot
+        predict the rounding and the history is discarded from here (`inexact`)."""
+        if red not in ('sum', 'mean', 'std', 'wmean') or m.is_rec_array or m.dtype != np.float32:
+            return False
+        sp = np.asarray(m._sparse_map)
+        vals = sp[sp != m._sentinel]
+        if vals.size == 0:
+            return False
+        ratios = [float(v).as_integer_ratio() for v in vals]
+        K = max(d for _, d in ratios)
+        total = sum(abs(n) * (K // d) for n, d in ratios)
+        return total >= 2 ** 24
+
     def op_deg(self, pos, kv):
         m = self.m(pos[0])
         w = self.m(kv['w']) if 'w' in kv else None
         self.pool[kv['r']] = m.degrade(2 ** int(kv['ord']), reduction=kv.get('red', 'mean'), weights=w)
+        if self.f4_sum_unsafe(m, kv.get('red', 'mean')):
+            return 'inexact'
         return 'ok'
 
     def op_upg(self, pos, kv):
@@ -669,6 +688,13 @@ class Real(PackedOps, RandOps):
             kw['nside_coverage'] = 2 ** int(kv['covord'])
         self.pool[kv['r']] = HealSparseMap.read(self.files[kv.get('f', 'f')], degrade_nside=2 ** int(kv['ord']),
                                                 reduction=kv.get('red', 'mean'), **kw)
+        if True:
+            try:
+                src = HealSparseMap.read(self.files[kv.get('f', 'f')])
+            except Exception:
+                src = None
+            if src is not None and self.f4_sum_unsafe(src, kv.get('red', 'mean')):
+                return 'inexact'
         return 'ok'
 
     def op_cat(self, pos, kv):
